@@ -150,6 +150,18 @@ def interface_sources():
         P % 'try { } undo { }  try { } stop { }',
         P % 'int i = 0; i = i; i += i; i /= 1; i %= 1;',
         P % 'byte b = \'a\'; b += 1; b *= b; b = b / 1 is byte;',
+        'empty write(int a) { }\n' + P % '',
+        'empty writeln() { }\n' + P % '',
+        'empty sleep(int t) { }\n' + P % '',
+        'empty !is_defeat() { }\n' + P % '',
+        'empty all_is_win() { }\n' + P % '',
+        'empty f(int a) { }\nempty f(int b) { }\n' + P % '',
+        'int g = 1;\nint g = 2;\n' + P % '',
+        P % 'int x = 1; int x = 2;',
+        P % 'try { !is_defeat(); } stop { write(\'s\'); }',
+        P % 'try { !truth_is_defeat(true); } stop { } try { } stop { }',
+        'empty !never() { !is_defeat(); }\n' + P % 'try { write(\'a\'); } stop { write(\'s\'); }',
+        P % 'int i = 0; while (true) { try { if (i > 2) { break; } i += 1; !truth_is_defeat(i == 2); } stop { continue; } }',
     ]
     out += probes
     return out
